@@ -25,6 +25,7 @@ EXPLANATION = (
     "version (R4b), so a consumer that already ran on a default is re-run. (R5) every completion of an emit-capable node produces its signals: each normal return of the executors of function, route, if/else and interrupt nodes is the result of a function that stores the sentinel for every emit output (followed through helper returns and single-assignment temporaries). R3 also requires that the gate-decides-first block is computed before the deferral (a deferred gate still holds its targets back, else the loop synchronised on the signal never evaluates its gate). R5 also covers completions served from the cache: on a hit the whole restored payload (data outputs and re-applied sentinels) is applied, not a projection of it."
     " R5 also requires that the cache key depends on the node's full output names (emit names included) or that the served payload is projected onto the hitting node's outputs: a hit on one node never produces the signal of another node that stored the entry."
     " R2 also requires that the per-step state copy carries each execution record whole (every field named, or dataclasses.replace)."
+    ' R1 reads the freshness and existence tests in their loop form and in their all()/any() forms; an existential quantifier over the waited-for names (one fresh signal suffices) is a violation.'
 )
 NOT_DECIDED = "Full liveness of arbitrary loops (that the other readiness conditions eventually hold); several waiters per signal are covered only through the per-node bookkeeping."
 
@@ -232,8 +233,9 @@ def run(ctx) -> None:
 
     # ---- R4 ---------------------------------------------------------------------
     uv = gstate.methods["update_value"]
-    ucfg = ctx.cfg(uv)
-    incs = [n for n in ucfg.nodes if n.kind == "stmt" and isinstance(n.ast, (ast.Assign, ast.AugAssign)) and "versions" in src(n.ast.targets[0] if isinstance(n.ast, ast.Assign) else n.ast.target) and "+ 1" in src(n.ast) or (n.kind == "stmt" and isinstance(n.ast, ast.AugAssign) and "versions" in src(n.ast.target))]
+    from .common import state_update_sites
+
+    ucfg, incs, all_stores17 = state_update_sites(ctx, uv)
     if not incs:
         raise AnalysisError("update_value: version increment not found")
     # sentinel constant and its writers
@@ -274,7 +276,7 @@ def run(ctx) -> None:
     # 'newness' must be sampled before the store: every evaluation of '<name> not in self.values' (bound to a local or
     # written directly in the version test) happens before the value is stored — after the store it is always false
     dom = dominators(ucfg.entry)
-    stores = [n for n in ucfg.nodes if n.kind == "stmt" and isinstance(n.ast, ast.Assign) and any(isinstance(t, ast.Subscript) and src(t.value).endswith(".values") for t in n.ast.targets)]
+    stores = all_stores17
     samplers = [n for n in ucfg.nodes if n.ast is not None and n.kind in ("stmt", "test") and any(isinstance(x, ast.Compare) and len(x.ops) == 1 and isinstance(x.ops[0], (ast.In, ast.NotIn)) and src(x.comparators[0]).endswith(".values") for e in ([n.ast.value] if n.kind == "stmt" and isinstance(n.ast, (ast.Assign, ast.AnnAssign)) and n.ast.value is not None else [n.ast] if n.kind == "test" else []) for x in ast.walk(e))]
     if samplers or names_new:
         late = [m for m in samplers if any(s_ in dom.get(m, set()) for s_ in stores)]
